@@ -166,7 +166,8 @@ def earlyClass (E : Env) (cls0 : Option (Bytes × Nat)) (uri : Bytes) : Option (
 
 /-- scheme / authority / rest: `partition(b'://')`, the `//` prefix, the `scheme:` prefix -/
 def cutScheme (uri : Bytes) : Bytes × Bool × Bytes :=
-  let r1 : Bytes × Bool × Bytes := match splitOnce [0x3A, 0x2F, 0x2F] uri with
+  -- no scheme in front of a slash: a `://` further on belongs to the path (the F52 repair)
+  let r1 : Bytes × Bool × Bytes := if startsWith uri [0x2F] then ([], false, uri) else match splitOnce [0x3A, 0x2F, 0x2F] uri with
     | some (a, b) => (a, true, b)
     | none => ([], false, uri)
   let r2 : Bytes × Bool × Bytes :=
